@@ -83,6 +83,7 @@ var reNorm = []struct {
 	re  *regexp.Regexp
 	rep string
 }{
+	{regexp.MustCompile(`struct\s*\{[^}]*\}`), "T"},
 	{regexp.MustCompile(`\((variable|value) of [^)]*\)`), "($1)"},
 	{regexp.MustCompile(`\S+\(.*\) \(no value\) used as value`), "f(...) (no value) used as value"},
 	{regexp.MustCompile(`(map\[string\]int|\*rt\.St|\[\]int|\[\]string|\brt\.(NInt|St|Ar|If)\b|\b(string|bool|int|rune)\b)`), "T"},
